@@ -42,7 +42,7 @@ pub fn def() -> PropDef {
             "thread interleavings of the races are sampled, not enumerated",
             "SingleSegmentIndexWriter takes no lock at all and is not an IndexWriter; the statement does not cover it",
         ],
-        subs: vec![Box::new(Lifecycle), Box::new(super::c18_proc::Process), Box::new(RollbackFault)],
+        subs: vec![Box::new(Lifecycle), Box::new(super::c18_proc::Process), Box::new(RollbackFault), Box::new(LockFault)],
     }
 }
 
@@ -1195,6 +1195,121 @@ impl Sub for RollbackFault {
             a => fail!(if failed { "create_refused_although_free:drop_after_failed_rollback" } else { "create_refused_although_free:drop" }, "{}", a.short()),
         }
         cx.sample(|| json!({"sub":"rollback_fault","case":c,"rollback_failed":failed}));
+        Ok(())
+    }
+}
+
+// ------------------------------------------------------------------------------------------------
+/// A creation attempt hits an I/O error on the writer lock file (SimDir fault on the lock path, which strikes whether
+/// or not the file exists) while a writer is alive: the attempt is refused, and so is every later attempt until the
+/// holder goes away; the holder keeps working; afterwards a writer can be created again.  With no holder the failed
+/// attempt leaves the lock free.
+#[derive(Clone, Debug, Serialize, Deserialize)]
+pub struct LockFaultCase {
+    pub holder: bool,
+    pub threads: u8,
+    /// number of refused (fault-free) attempts before the faulty one
+    pub before: u8,
+    /// which storage operation on the lock file fails: 0 create, 1 flush / append / terminate (whatever comes)
+    pub kind: u8,
+    pub permanent: bool,
+    pub probe: u8,
+    pub rollback_between: bool,
+}
+pub struct LockFault;
+impl Sub for LockFault {
+    type Case = LockFaultCase;
+    fn name(&self) -> &'static str {
+        "lock_fault"
+    }
+    fn cases(&self, tier: Tier) -> u32 {
+        tier.pick(400, 5000)
+    }
+    fn shards(&self, _tier: Tier) -> usize {
+        8
+    }
+    fn strategy(&self, _tier: Tier) -> BoxedStrategy<LockFaultCase> {
+        (prop::bool::weighted(0.8), 1u8..=3, 0u8..3, 0u8..2, any::<bool>(), 0u8..3, any::<bool>())
+            .prop_map(|(holder, threads, before, kind, permanent, probe, rollback_between)| LockFaultCase { holder, threads, before, kind, permanent, probe, rollback_between })
+            .boxed()
+    }
+    fn mandatory_labels(&self, _t: Tier) -> Vec<&'static str> {
+        vec!["faulty_attempt_while_held", "faulty_attempt_while_free", "attempt_failed_with_io_error"]
+    }
+    fn run(&self, c: &LockFaultCase, cx: &Ctx) -> CaseResult {
+        let mut env = Env::new(DirKind::Sim)?;
+        let sim = env.sim.clone().unwrap();
+        let id_field = env.id;
+        let probe = env.h(c.probe);
+        let mut id = 0u64;
+        let mut holder: Option<IndexWriter> = if c.holder {
+            match attempt(&env.handles[0], &Spec::Valid { how: How::Options, threads: c.threads }) {
+                Att::Ok(w) => Some(w),
+                a => fail!("create_failed_although_free:initial", "{}", a.short()),
+            }
+        } else {
+            None
+        };
+        for k in 0..c.before {
+            if holder.is_some() {
+                match attempt(&env.handles[(probe + k as usize) % 3], &Spec::plain()) {
+                    a if a.is_lock() => {}
+                    Att::Ok(_) => fail!("second_writer_created:created", "a plain attempt succeeded while the holder is alive"),
+                    a => fail!("wrong_error_while_held", "{}", a.short()),
+                }
+            }
+        }
+        // the faulty attempt
+        let kinds = if c.kind == 0 { vec![K::Create] } else { vec![K::Flush, K::Append, K::Terminate] };
+        sim.set_faults(vec![FaultRule { kinds, thread: String::new(), path_suffix: "writer.lock".into(), nth: 0, permanent: c.permanent, locks: true }]);
+        let faulty = attempt(&env.handles[probe], &Spec::plain());
+        sim.clear_faults();
+        cx.label(if holder.is_some() { "faulty_attempt_while_held" } else { "faulty_attempt_while_free" });
+        let mut stray: Option<IndexWriter> = None;
+        match faulty {
+            Att::Ok(w) => {
+                ensure!(holder.is_none(), "second_writer_created:after_lock_io_error", "the attempt that hit an I/O error on the lock file returned a writer while the holder is alive");
+                // no holder and the fault did not fire on this path (e.g. nothing is flushed): a normal creation
+                cx.label("faulty_attempt_succeeded_while_free");
+                stray = Some(w);
+            }
+            a => {
+                cx.label_if(!a.is_lock() || a.short().contains("IoError") || a.short().contains("Io"), "attempt_failed_with_io_error");
+            }
+        }
+        if let Some(w) = holder.as_mut() {
+            if c.rollback_between {
+                w.rollback().or_fail("holder_disturbed:rollback")?;
+            }
+            // every later attempt is refused while the holder is alive
+            for k in 0..2usize {
+                match attempt(&env.handles[(probe + k) % 3], &Spec::plain()) {
+                    a if a.is_lock() => {}
+                    Att::Ok(_) => fail!("second_writer_created:after_lock_io_error", "after an attempt that failed with an I/O error on the lock file, a later attempt on handle {} created a second writer although the holder is alive", HANDLE_NAMES[(probe + k) % 3]),
+                    a => fail!("wrong_error_while_held", "{}", a.short()),
+                }
+                cx.evals(1);
+            }
+            // and the holder is undisturbed
+            id += 1;
+            w.add_document(doc_with(id_field, id)).or_fail("holder_disturbed:add_commit")?;
+            w.commit().or_fail("holder_disturbed:add_commit")?;
+            ensure!(env.count(probe, id)? == 1, "holder_commit_not_visible:add_commit", "after a faulty attempt");
+        }
+        drop(holder.take());
+        drop(stray.take());
+        // free again
+        match attempt(&env.handles[probe], &Spec::plain()) {
+            Att::Ok(mut w2) => {
+                id += 1;
+                w2.add_document(doc_with(id_field, id)).or_fail("holder_disturbed:final")?;
+                w2.commit().or_fail("holder_disturbed:final")?;
+                ensure!(env.count((probe + 1) % 3, id)? == 1, "holder_commit_not_visible:final", "");
+            }
+            a => fail!("create_refused_although_free:after_lock_io_error", "every writer is gone but a new one cannot be created: {}", a.short()),
+        }
+        cx.nontrivial(fp(c));
+        cx.sample(|| json!({"sub": "lock_fault", "case": c}));
         Ok(())
     }
 }
